@@ -81,6 +81,10 @@ type grant struct {
 }
 
 func gen(r *hx.Rng, tier string, i int) []hx.Zs {
+	if i%16 == 11 {
+		// an entity announced again without its features, then torn down; another peer binds and writes
+		return stack.Reannounce(r)
+	}
 	focus := int64(r.Range(1, 3))
 	if r.Chance(1, 5) {
 		focus = 0
